@@ -69,6 +69,7 @@ class Registry:
         self.contracts = {}          # qual ("Class.method" or "func") -> Contract
         self.specfuns = {}           # name -> python callable(ev, *SV) -> SV   or  (params, body-ast)
         self.consts = {}             # module-level constants visible to code: name -> python int/str/...
+        self.globals = {}            # ghost/global objects: name -> type string (one symbolic constant each)
         self.exc_parents = {
             "BaseException": None, "Exception": "BaseException", "KeyError": "LookupError", "IndexError": "LookupError",
             "LookupError": "Exception", "ValueError": "Exception", "TypeError": "Exception",
